@@ -39,6 +39,23 @@ def run(chk):
                           "diagnostics reported (every violation must appear exactly once)" % (c["_n"], na, nu),
                           {"concrete": {k: v for k, v in c.items() if k != "_n"},
                            "observed": {k: r.get(k) for k in ("outcome", "exit", "report")}})
+    # many async results: 12 scripted blocks over two files, four severity spellings, each reported once
+    import os
+    wd = vlib.subdir("c11-many")
+    script = os.path.join(wd, "no.lua")
+    open(script, "w").write('function validate(ctx, content) return "no " .. content end\n')
+    sev = ["", ' severity="warning"', ' severity="INFO"', ' severity="Hint"']
+    f1 = "".join('# <block name="a%d" check-lua="%s"%s>\nbody%d\n# </block>\n' % (k, script, sev[k % 4], k) for k in range(7))
+    f2 = "".join('# <block name="b%d" check-lua="%s"%s>\nbody%d\n# </block>\n' % (k, script, sev[(k + 1) % 4], k) for k in range(5))
+    for rep in range(3):
+        r = vlib.run_cli_one({"id": "many", "files": {"one.py": f1, "two.py": f2}, "diff": None, "args": [], "terminal": True,
+                              "env": {"TOKIO_WORKER_THREADS": str([1, 4, 16][rep])}})
+        chk.count(nontrivial=True)
+        ds = [(f, d["range"]["start"]["line"], d["severity"]) for f, dl in (r.get("report") or {}).items() for d in dl]
+        want = [("one.py", 1 + 3 * k, (k % 4) + 1) for k in range(7)] + [("two.py", 1 + 3 * k, ((k + 1) % 4) + 1) for k in range(5)]
+        if r["outcome"] != "ok" or sorted(ds) != sorted(want) or r["exit"] != 1:
+            chk.violation("12 scripted blocks each returning a string: %d diagnostics reported, exit %s" % (len(ds), r["exit"]),
+                          {"files": {"one.py": f1, "two.py": f2}, "observed": {k: r.get(k) for k in ("outcome", "exit", "report")}})
     # `list` prints the selected blocks as one JSON object on stdout and exits 0, whatever the rules say
     sids = sorted(items)
     chk.rng.shuffle(sids)
